@@ -8,6 +8,9 @@ import (
 	"reflect"
 	"runtime"
 	"strconv"
+	"strings"
+	"sync"
+	"sync/atomic"
 	"time"
 
 	"github.com/echovault/sugardb/sugardb"
@@ -51,6 +54,12 @@ func checkC20(ctx *Ctx) {
 	for i := 0; i < ctx.N(24, 96); i++ {
 		if ctx.Mine(i) {
 			c20Persistence(ctx, i)
+		}
+	}
+	for i := 0; i < ctx.N(8, 48); i++ {
+		if ctx.Mine(i + 2) {
+			ctx.SetCurrent(fmt.Sprintf("C20 concurrent select/swapdb %d", i))
+			c20Concurrent(ctx, i)
 		}
 	}
 	if ctx.Shard == 3 || ctx.NShards == 1 {
@@ -268,6 +277,106 @@ func c20Persistence(ctx *Ctx, i int) {
 			ctx.Violate(Violation{Kind: "placement", Lane: "persistence-" + mode,
 				What: fmt.Sprintf("after a %s restore keys are not in the databases they were written to: %v %s", mode, err, model.DiffCanon(want, d)),
 				Case: map[string]interface{}{"workload": w}, Key: "c20|persistence|" + mode})
+		}
+	}
+}
+
+// c20Concurrent: SELECT affects only the issuing connection, also while other connections swap databases.
+// Six connections select databases 7, 8 or 9 again and again and write a key whose name says which database
+// they had just selected; two connections swap databases 0 and 1 all the time (which concerns nobody on 7..9);
+// a few hundred idle connections make the connection table long. At the end every key must be in the
+// database its name says.
+func c20Concurrent(ctx *Ctx, i int) {
+	port := freePort()
+	in, err := NewInst(InstOpts{Extra: withTCP(port)})
+	if err != nil {
+		ctx.Broken(err.Error())
+		return
+	}
+	defer in.Close()
+	if err := in.StartTCP(port); err != nil {
+		ctx.Inconclusive("listener did not come up")
+		return
+	}
+	var idle []*Client
+	for k := 0; k < 300; k++ {
+		if c, err := Dial(port); err == nil {
+			idle = append(idle, c)
+		}
+	}
+	defer func() {
+		for _, c := range idle {
+			c.Close()
+		}
+	}()
+	stop := make(chan struct{})
+	var swaps atomic.Int64
+	var sw sync.WaitGroup
+	for g := 0; g < 2; g++ {
+		sw.Add(1)
+		go func() {
+			defer sw.Done()
+			c, err := Dial(port)
+			if err != nil {
+				return
+			}
+			defer c.Close()
+			for {
+				select {
+				case <-stop:
+					return
+				default:
+				}
+				if _, _, err := c.Do("SWAPDB", "0", "1"); err != nil {
+					return
+				}
+				swaps.Add(1)
+			}
+		}()
+	}
+	var wg sync.WaitGroup
+	var writes atomic.Int64
+	for id := 0; id < 6; id++ {
+		wg.Add(1)
+		go func(id int) {
+			defer wg.Done()
+			c, err := Dial(port)
+			if err != nil {
+				return
+			}
+			defer c.Close()
+			r := rand.New(rand.NewSource(ctx.Seed*131 + int64(i*10+id)))
+			for k := 0; k < 120; k++ {
+				d := 7 + r.Intn(3)
+				if v, _, err := c.Do("SELECT", strconv.Itoa(d)); err != nil || v.IsError() {
+					return
+				}
+				if v, _, err := c.Do("SET", fmt.Sprintf("c20c:%d:%d:db%d", id, k, d), "v"); err != nil || v.IsError() {
+					return
+				}
+				writes.Add(1)
+			}
+		}(id)
+	}
+	wg.Wait()
+	close(stop)
+	sw.Wait()
+	d := in.S.VerifDump()
+	ctx.Eval(1)
+	ctx.Count("concurrent_selects", writes.Load())
+	ctx.Count("concurrent_swaps", swaps.Load())
+	ctx.Class("concurrent|select-vs-swapdb")
+	for db, keys := range d.DBs {
+		for k := range keys {
+			if !strings.HasPrefix(k, "c20c:") {
+				continue
+			}
+			if want := k[strings.LastIndex(k, ":db")+3:]; want != strconv.Itoa(db) {
+				ctx.Violate(Violation{Kind: "select", Lane: "concurrent",
+					What: fmt.Sprintf("a connection was answered OK for SELECT %s and then wrote %s, which is in database %d: its selection was undone while other connections were running SWAPDB 0 1 (%d swaps, %d select+write pairs)", want, k, db, swaps.Load(), writes.Load()),
+					Case: map[string]interface{}{"key": k, "found_in": db}, Key: "c20|concurrent|select-lost"})
+				return
+			}
 		}
 	}
 }
